@@ -10,7 +10,8 @@ modes
                                           decimal sums that force the float path of const_inequality, polynomial identities with free
                                           variables (real_norm: t = the code's own normal form of t, textbook identities, perturbations),
                                           real powers with compound natural-number exponents (nested truncated subtraction, closed
-                                          and with free nat variables), equivalences of comparisons (real_eq_comparison), huge constants
+                                          and with free nat variables), equivalences of comparisons (real_eq_comparison), huge constants,
+                                          near-equal irrational constants q + c * sqrt r from 10^1 to 10^60 (fam_surd)
 Events: {tid, key, src, goal, acc: [{m, h: [hyps], c: conclusion}] (accepted), rej: [m, ...] (refused with one of the checker's own
          exceptions), raised: [[m, exception class], ...] (foreign exception)}
 Terms are projected to the applied form of spec/C05_HolArith.tla by reading raw fields only (no Term.__eq__, is_number,
@@ -479,6 +480,71 @@ def fam_big(log, rng, n):
         log.goal("big", rel("greater", R, b2("plus", R, C("abs", R, R)(num(R, a)), num(R, 1)), num(R, a)))
 
 
+SURD_ONLY = ("const_inequality", "real_compare", "real_const_eq", "real_const_ineq", "real_eval")
+SURD_BIG = ("const_inequality", "real_const_eq")       # beyond 10^9 (the other steps spend most of their time refusing long numerals)
+
+
+def fam_surd(log, rng, ks, full):
+    """Near-equal IRRATIONAL constants  q + c * sqrt r  (decided exactly by spec/C05_Surd.tla: squaring in limb arithmetic).
+    For n = 10^k (and, when full, a random n of the same size), from magnitudes where doubles still separate the two sides up to
+    10^60 where both roots round to the same double:  sqrt n ? sqrt (n+1),  sqrt (n^2 +- 1) ? n,  sqrt (n^2) ? n,
+    1 + sqrt n ? 1 + sqrt (n+1),  1 + sqrt (n^2+1) ? sqrt ((n+1)^2+1),  2 sqrt n ? sqrt (4n+1),  sqrt 2 * n ? sqrt (2n^2+1),
+    negated and inverted roots, roots of near-equal fractions, equal irrationals written differently (sqrt (4n) = 2 sqrt n),
+    and differences of near-equal numbers scaled back to order 1 ((sqrt (n^2+1) - n) * 4n ? 1: cancellation).  Every pair is
+    posed with all five relations and as a disequality (when full: both orders, the negation of every relation, and every shape
+    at every magnitude), so each pair yields true and false statements.  Python integers only BUILD the terms; no truth value is computed here."""
+    T = "real"
+    sq = lambda a: C("sqrt", T, T)(a)                          # noqa: E731
+    R = lambda v: num(T, v)                                    # noqa: E731
+    P = lambda a, b: b2("plus", T, a, b)                       # noqa: E731
+    M = lambda a, b: b2("minus", T, a, b)                      # noqa: E731
+    X = lambda a, b: b2("times", T, a, b)                      # noqa: E731
+    D = lambda a, b: b2("real_divide", T, a, b)                # noqa: E731
+    U = lambda a: C("uminus", T, T)(a)                         # noqa: E731
+    A = lambda a: C("abs", T, T)(a)                            # noqa: E731
+
+    def pose(a, b, both, only=SURD_ONLY):
+        for x, y in ((a, b), (b, a)) if both else ((a, b),):
+            for k in RELS:
+                log.goal("surd", rel(k, T, x, y), only=only)
+                if full and k != "equals":
+                    log.goal("surd", neg(rel(k, T, x, y)), only=only)
+            log.goal("surd", neg(rel("equals", T, x, y)), only=only)
+
+    for k in ks:
+        ns = [10 ** k] + ([rng.randrange(10 ** k, 10 ** (k + 1))] if full else [])
+        for n in ns:
+            wide = full or k in (1, 8)                 # quick tier: the rarer shapes at two magnitudes only
+            every = None if (k in (1, 8) and n == 10 ** k) else (SURD_ONLY if k <= 9 else SURD_BIG)   # at two magnitudes: EVERY trusted step
+            only = SURD_ONLY if k <= 9 else SURD_BIG
+            pose(sq(R(n)), sq(R(n + 1)), True, only=every)
+            pose(sq(R(n * n + 1)), R(n), True, only=every)
+            pose(sq(R(n * n - 1)), R(n), full, only=only)
+            pose(P(R(1), sq(R(n * n + 1))), sq(R((n + 1) ** 2 + 1)), full, only=only)
+            pose(X(sq(R(2)), R(n)), sq(R(2 * n * n + 1)), full, only=only)
+            # cancellation: the difference of two near-equal numbers, scaled back to order 1
+            pose(X(M(sq(R(n * n + 1)), R(n)), R(4 * n)), R(1), False, only=only)             # ~ 2
+            pose(X(M(sq(R(n * n + 1)), R(n)), R(2 * n)), R(1), False, only=only)             # just below 1
+            if not wide:
+                continue
+            pose(sq(R(n * n)), R(n), full, only=only)
+            pose(P(R(1), sq(R(n))), P(R(1), sq(R(n + 1))), full, only=only)
+            pose(P(sq(R(n)), R(Fraction(1, 3))), P(R(Fraction(1, 3)), sq(R(n + 1))), False, only=only)
+            pose(M(sq(R((n + 1) ** 2 + 1)), R(1)), sq(R(n * n + 1)), False, only=only)
+            pose(X(R(2), sq(R(n))), sq(R(4 * n + 1)), full, only=only)
+            pose(X(sq(R(2)), R(n)), sq(R(2 * n * n)), False, only=only)                      # equal irrationals
+            pose(sq(R(4 * n)), X(R(2), sq(R(n))), False, only=only)                          # equal irrationals
+            pose(U(sq(R(n + 1))), U(sq(R(n))), False, only=only)
+            pose(sq(R(-n - 1)), U(sq(R(n))), False, only=only)                               # sqrt (-x) = - sqrt x in HOL
+            pose(D(sq(R(n)), R(3)), D(sq(R(n + 1)), R(3)), False, only=only)
+            pose(D(R(1), sq(R(n))), D(R(1), sq(R(n + 1))), False, only=only)
+            pose(C("real_inverse", T, T)(sq(R(n + 1))), D(R(1), sq(R(n))), False, only=only)
+            pose(sq(R(Fraction(n, n + 1))), sq(R(Fraction(n + 1, n + 2))), False, only=only)
+            pose(sq(R(Fraction(n * n + 1, 4))), R(Fraction(n, 2)), False, only=only)
+            pose(X(A(M(R(n), sq(R(n * n + 1)))), R(4 * n)), R(1), False, only=only)
+            pose(X(M(sq(R(n + 1)), sq(R(n))), R(2)), R(0), False, only=only)                 # two irrational surds: outside the fragment
+
+
 def fam_odd(log, rng):
     """constants at types where the library gives them no meaning, other logical shapes: exercised, never judged"""
     three, two, zero = num("nat", 3), num("nat", 2), num("nat", 0)
@@ -651,6 +717,8 @@ def mode_rand(out_path, n, seed):
     fam_poly(log, random.Random(seed * 31 + 4), max(40, n // 3))
     fam_exponent(log, random.Random(seed * 31 + 6), max(25, n // 6))
     fam_eqcmp(log, random.Random(seed * 31 + 5), max(40, n // 20))
+    fam_surd(log, random.Random(seed * 31 + 7), (1, 2, 7, 8, 16, 20, 40, 60) if small else tuple(range(1, 31)) + (35, 40, 50, 60),
+             full=not small)
     log.close()
     print(json.dumps({"goals": log.tid, "macros": log.macros}))
 
